@@ -57,6 +57,10 @@ def replay(pid, path):
 def check(pid, tier, seed, only_report=None):
     t0 = time.time()
     prop = REG.PROPS[pid]
+    pids = [pid] + list(getattr(REG, "DEPENDS", {}).get(pid, []))   # the property and those it presupposes
+
+    def serves(props):
+        return any(q in props for q in pids)
     work = tempfile.mkdtemp(prefix="vx-%s-" % pid)
     tool_errors = []
     failures = []          # relevant to pid
@@ -130,7 +134,7 @@ def check(pid, tier, seed, only_report=None):
             backends["verus"]["smt_ms"] += r.smt_ms
             for e in r.tool_errors:
                 tool_errors.append("[%s] %s" % (un, e))
-            for e in u.lost_hints.get(pid, []):
+            for e in [x for q in pids for x in u.lost_hints.get(q, [])]:
                 tool_errors.append("[%s] optional proof-hint anchor lost (%s): obligations of %s that need it are undecided" % (un, e, pid))
             for k, v in u.rule_counts.items():
                 rules[k] = rules.get(k, 0) + v
@@ -139,13 +143,13 @@ def check(pid, tier, seed, only_report=None):
             failed_ids = {}
             for f in r.failures:
                 failed_ids.setdefault(f["obligation"], f)
-            mine = [c for c in u.clauses if pid in c.props and c.kind != "requires"]
+            mine = [c for c in u.clauses if serves(c.props) and c.kind != "requires"]
             fn_with = sorted(set(c.fn for c in mine))
             for f in u.functions:
-                if f["kind"] == "fn" and (f["name"] in fn_with or pid in f.get("props", [])):
+                if f["kind"] == "fn" and (f["name"] in fn_with or serves(f.get("props", []))):
                     functions.append("%s::%s (%s:%d, %d clauses)" % (un, f["name"], f["file"], f["line"], f.get("clauses", 0)))
             # one body-safety obligation per function whose default props include pid
-            body_fns = [f for f in u.functions if f["kind"] == "fn" and pid in f.get("props", [])]
+            body_fns = [f for f in u.functions if f["kind"] == "fn" and serves(f.get("props", []))]
             ob_total += len(mine) + len(body_fns)
             if not r.tool_errors:
                 bad_clause = set()
@@ -154,17 +158,17 @@ def check(pid, tier, seed, only_report=None):
                     if f["obligation"].split(":")[2] in u.lost_fns:
                         # the function lost an optional proof hint (its anchor is gone after a restructuring): what then fails to verify in it is
                         # an unproved obligation, not a refuted one — undecided for the properties it serves, never an alarm
-                        if pid in f["props"]:
+                        if serves(f["props"]):
                             tool_errors.append("[%s] %s failed in a function that lost a proof hint: undecided" % (un, ob))
                         continue
                     if "SHAPE" in f["props"]:
                         # a code-derived shape clause (DESIGN I.1): it pins down HOW the code does something the property does
                         # not prescribe; when it stops matching, the obligations built on it are undecided, never an alarm
                         fn_ = f["obligation"].split(":")[2]
-                        if any(x["name"] == fn_ and pid in x.get("props", []) for x in u.functions):
+                        if any(x["name"] == fn_ and serves(x.get("props", [])) for x in u.functions):
                             tool_errors.append("[%s] shape clause %s no longer matches the code (%s): the obligations of %s that are stated through it are undecided" % (un, ob, f["message"][:120], pid))
                         continue
-                    if pid in f["props"]:
+                    if serves(f["props"]):
                         failures.append(f)
                         if f["kind"] == "clause":
                             bad_clause.add(ob)
@@ -256,7 +260,7 @@ def check(pid, tier, seed, only_report=None):
         for t, w in bad.items():
             tool_errors.append("[oracle] replay/witness.rs::%s fails on a tree where every obligation is discharged: %s" % (t, w[:300]))
     wall = time.time() - t0
-    known = [k for k in _known() if k["property"] == pid]
+    known = [k for k in _known() if k["property"] in pids]
     known_hit = []
     new_viol = []
     for f in failures:
